@@ -513,7 +513,8 @@ var decisionFeatures = []string{"expr/paren-operand", "expr/bare-operand", "lit/
 
 func TestC38(t *testing.T) {
 	rec := evid.Start(t, "C38", "programs from the grammar generator (full programs, expression-dense and type-dense programs; plain and randomly laid out, without "+
-		"comments) plus the repository-test snippets that parse; oracle: p1=Parse(src), s=p1.String(), p2=Parse(s) succeeds, JSON(p1)==JSON(p2) after removing "+
+		"comments) plus the repository-test snippets that parse, plus (every run, exhaustively) both nesting shapes `(x op1 y) op2 z` / `x op1 (y op2 z)` for every "+
+		"ordered pair of the 19 binary operators and the cast/unary/force/member/index/conditional mixes (classes prec/<assoc>/<side>/<relation>, prec/mix/*); oracle: p1=Parse(src), s=p1.String(), p2=Parse(s) succeeds, JSON(p1)==JSON(p2) after removing "+
 		"keys ending in Pos/Range and DocString/Comments, and p2.String()==s. Non-trivial: AST depth ≥ 4 and at least one construct that needs a "+
 		"parenthesisation/escape decision (nested operator operands, casts, unary, conditional, string escapes/templates, optional/reference/function types). Distinct by source text.")
 	knownFS9 := rec.Known("FS9")
@@ -559,7 +560,7 @@ func TestC38(t *testing.T) {
 	kinds := map[string]int{}
 	// (json.Marshal of the AST re-compacts every nested MarshalJSON result, ~5 ms per program: quick counts are sized for that)
 	defer debug.SetGCPercent(debug.SetGCPercent(400))
-	N := evid.N(7_000, 60_000)
+	N := evid.N(5_500, 60_000)
 	report := func(class string, src []byte, notes []string, msg string) {
 		cls := msgClass(msg)
 		small := shrinkStructured(src, func(b []byte) bool {
@@ -617,6 +618,48 @@ func TestC38(t *testing.T) {
 			report(class, src, notes, msg)
 		}
 	}
+	// systematic precedence/associativity stress: every ordered pair of binary operators in both nesting shapes, plus the
+	// cast/unary/force/member/conditional mixes (enumerated completely in every run, shard 0)
+	if evid.Shard() == 0 {
+		for _, pc := range srcgen.PrecedenceCases() {
+			src := []byte(pc.Source + "\n")
+			msg, info := roundTrip(src, knownFS9)
+			cls := "prec/" + pc.Class
+			if !info.parsed {
+				rec.Class("prec-outcome/rejected-by-parser")
+				rec.Class(cls + "/rejected-by-parser")
+				continue
+			}
+			rec.CaseH(pc.NeedsParens, evid.Hash(pc.Source))
+			for k, v := range info.kinds {
+				kinds[k] += v
+			}
+			if msg != "" {
+				if id := knownC38(rec, info.j1, msg, info.printed); id != "" {
+					rec.Excluded(id)
+					rec.Class("prec-outcome/excluded-" + id)
+					continue
+				}
+				rec.Violation(t, mkCase("precedence", src, nil, []string{pc.Class}), "%s (printed: %q)", msg, info.printed)
+			}
+			rec.Class("prec-outcome/judged")
+			rec.Class(cls)
+			if pc.NeedsParens {
+				rec.Class(cls + "/parentheses-needed")
+			}
+		}
+		var need []string
+		for _, a := range []string{"left-assoc", "right-assoc"} {
+			for _, side := range []string{"left", "right"} {
+				for _, rl := range []string{"lower", "equal", "higher"} {
+					need = append(need, "prec/"+a+"/"+side+"/"+rl)
+				}
+			}
+		}
+		need = append(need, "prec/mix/nested-same-operator", "prec/mix/binary-under-cast", "prec/mix/binary-under-unary", "prec/mix/binary-under-force",
+			"prec/mix/conditional-under-binary-left", "prec/mix/cast-under-unary", "prec/mix/unary-under-force")
+		rec.RequireClasses(t, need...)
+	}
 	for i := 0; i < N; i++ {
 		var p *srcgen.Program
 		var class string
@@ -638,7 +681,7 @@ func TestC38(t *testing.T) {
 	}
 	// repository test snippets (each once per run, a deterministic slice per shard)
 	corpus := harvest()
-	per := evid.N(2000, len(corpus))
+	per := evid.N(1500, len(corpus))
 	start := 0
 	if len(corpus) > per {
 		start = r.Intn(len(corpus) - per)
